@@ -35,6 +35,7 @@ package shrinker
 //@   allocates struct:struct{}
 //@   modifies muheld, shrinkst.nthread
 //@   ensures muheld == old(muheld)
+//@   ensures [F2-started] shrinkst.nthread == old(shrinkst.nthread) + 1 @C05
 
 //@ spec (*ShrinkerSt).shrinker
 //@   props C14 C06 C05 C11
